@@ -118,3 +118,9 @@ Theorem sstruct_normalize_plain : forall fmt bs, forallb ProofsSstruct2.plain_ki
   length bs = calcsize fmt -> ProofsSstruct2.normalize fmt bs = bs.
 Proof. exact ProofsSstruct2.normalize_plain. Qed.
 Print Assumptions sstruct_normalize_plain.
+
+(* a record of exactly calcsize bytes always unpacks, whatever the bytes (the only failure of unpack is a wrong length) *)
+Theorem sstruct_unpack_total : forall fmt bs, fmt_ok fmt = true -> length bs = calcsize fmt ->
+  exists vals, ModelSstruct.unpack fmt bs = Ok vals.
+Proof. exact ProofsSstruct2.sstruct_unpack_total. Qed.
+Print Assumptions sstruct_unpack_total.
